@@ -36,7 +36,7 @@ class C06(Prop):
         self.h.setup()
 
     def strategy(self, tier):
-        return st.fixed_dictionaries({"tree": st.one_of(_wait_tree(), _wait_tree(), _wait_leaf.map(list)), "tick": st.sampled_from([None, 0.3, 0.7, 1.3]), "n": st.integers(3, 6), "s": st.sampled_from([0, 0, 1, 2])})
+        return st.fixed_dictionaries({"tree": st.one_of(_wait_tree(), _wait_tree(), _wait_leaf.map(list)), "tick": st.sampled_from([None, 0.3, 0.7, 1.3]), "m": st.sampled_from([1, 1, 2, 3]), "workers": st.sampled_from([1, 1, 2]), "ties": st.lists(st.integers(0, 3), max_size=4), "n": st.integers(3, 6), "s": st.sampled_from([0, 0.5, 1, 2])})
 
     # documented interval for retry k (1-based)
     def doc(self, node, k):
@@ -89,15 +89,21 @@ class C06(Prop):
         raise ValueError(kind)
 
     def run_case(self, case):
+        from ..boot import Runaway
+
         case = json.loads(json.dumps(case))
         r = CaseResult()
         rp = genwf.M()["rp"]
         tree, n = case["tree"], case["n"]
+        m, workers = case.get("m", 1), case.get("workers", 1)
         policy = rp.retry_policy(wait=self.h.mk_wait(tree), stop=rp.stop_after_attempt(n))
         spec = {
-            "steps": [{"name": "a", "accepts": ["GStart"], "workers": 1, "retry": {"custom": True},
-                       "acts": {"GStart": [["sleep", case["s"]], ["fail", None, "ValueError"], ["ret", "GStop"]]}}],
-            "timeout": None, "ext": [], "ties": [],
+            "steps": [
+                {"name": "a0", "accepts": ["GStart"], "workers": 1, "retry": None, "acts": {"GStart": [["send", "E1", m, None], ["ret", None]]}},
+                {"name": "a", "accepts": ["E1"], "workers": workers, "retry": {"custom": True},
+                 "acts": {"E1": [["sleep", case["s"]], ["fail", None, "ValueError"], ["ret", "GStop"]]}},
+            ],
+            "timeout": None, "ext": [], "ties": case.get("ties", []),
         }
         total_hi = sum(self.doc(tree, k)[1] for k in range(1, n))
         ticker = case.get("tick") if total_hi <= 100 else None
@@ -109,32 +115,55 @@ class C06(Prop):
             spec["ext"].append([0, "send", "E0", None, {}])
             r.classes.append("with_ticker")
         tick_policy = rp.retry_policy(wait=rp.wait_fixed(ticker or 1), stop=rp.stop_never())
-        rec = genwf.run_case_program(
-            spec, probe=False, horizon=1e13,
-            retry_builder=lambda s: None if not s else (tick_policy if s.get("ticker") else policy),
-        )
-        invs = [i for i in rec.inv if i["step"] == "a"]
-        if len(invs) != n:
-            r.v("execution_count", got=len(invs), want=n)
+        try:
+            rec = genwf.run_case_program(
+                spec, probe=False, horizon=1e13,
+                retry_builder=lambda s: None if not s else (tick_policy if s.get("ticker") else policy),
+            )
+        except Runaway:
+            r.v("unbounded_retries")
+            r.nontrivial = True
             return r
+        by_uid: dict[int, list] = {}
+        for i in rec.inv:
+            if i["step"] == "a":
+                by_uid.setdefault(i["uid"], []).append(i)
         docs = []
-        for k in range(1, n):
-            lo, hi = self.doc(tree, k)
-            docs.append((lo, hi))
-            gap = invs[k]["t_in"] - invs[k - 1]["t_out"]
-            tol = EPS * max(1.0, abs(hi) if math.isfinite(hi) else 1.0)
-            nlo, nhi = self.doc(tree, k + 1)  # signature of the known off-by-one (strategy indexed with the failure count)
-            shifted = nlo - tol <= gap <= nhi + tol
-            if gap < lo - tol:
-                r.v("retry_too_early", k=k, first_retry=k == 1, gap=gap, documented_lo=lo, explained_by_index_shift=shifted, top=tree[0])
-            elif gap > hi + tol:
-                r.v("retry_delay_mismatch", k=k, first_retry=k == 1, gap=gap, documented_hi=hi, explained_by_index_shift=shifted, top=tree[0])
+        waited = False
+        full = [v for v in by_uid.values() if len(v) == n]
+        if rec.outcome["kind"] != "failed" or not full:
+            r.v("execution_count", got=[len(v) for v in by_uid.values()], want=n)
+            return r
+        for uid, invs in by_uid.items():
+            if len(invs) > n:
+                r.v("execution_count", got=len(invs), want=n)
+            for k in range(1, len(invs)):
+                if invs[k]["ri"].retry_number != k:
+                    r.v("retry_number_sequence", k=k, got=invs[k]["ri"].retry_number)
+                lo, hi = self.doc(tree, k)
+                docs.append((lo, hi))
+                gap = invs[k]["t_in"] - invs[k - 1]["t_out"]
+                tol = EPS * max(1.0, abs(hi) if math.isfinite(hi) else 1.0)
+                nlo, nhi = self.doc(tree, k + 1)  # signature of the known off-by-one (strategy indexed with the failure count)
+                # single event: the gap must match the shifted delay exactly; under contention a due retry may have
+                # waited for a slot, so only the shifted lower bound can be recognised
+                shifted = (nlo - tol <= gap <= nhi + tol) if m == 1 else (gap >= nlo - tol)
+                if gap < lo - tol:
+                    r.v("retry_too_early", k=k, first_retry=k == 1, gap=gap, documented_lo=lo, explained_by_index_shift=shifted, top=tree[0])
+                elif gap > hi + tol:
+                    if m == 1:
+                        r.v("retry_delay_mismatch", k=k, first_retry=k == 1, gap=gap, documented_hi=hi, explained_by_index_shift=shifted, top=tree[0])
+                    else:
+                        waited = True  # with several events a due retry may wait for a free slot: only the lower bound applies
         distinct = {d for d in docs}
         r.nontrivial = len(distinct) >= 2
         r.classes.append("top_" + tree[0])
+        r.classes.append(f"events_{m}")
+        if waited:
+            r.classes.append("retry_waited_for_a_slot")
         if self.h.has_jitter(tree):
             r.classes.append("jitter")
-        r.sample = {"case": case, "gaps": [invs[k]["t_in"] - invs[k - 1]["t_out"] for k in range(1, n)], "documented": docs}
+        r.sample = {"case": case, "gaps": [[v[k]["t_in"] - v[k - 1]["t_out"] for k in range(1, len(v))] for v in by_uid.values()], "documented": docs[: n - 1]}
         return r
 
 
